@@ -93,7 +93,14 @@ func (a *Arg) Resolve(field *Field, args map[string]interface{}) (result interfa
 	case typeStr:
 		result = a.Type
 	case defaultValueStr:
-		result = a.Default
+		switch a.Default.(type) {
+		case nil, string:
+			result = a.Default
+		default:
+			// An enum, list or input object default is a value as well,
+			// give it as GraphQL text.
+			result = valueString(a.Default)
+		}
 	}
 	return
 }
